@@ -325,7 +325,9 @@ func (ex *Exec) assertEq(st *State, a, b StrV, label string) {
 	w := ts.Fresh(64, "wit")
 	ao, bo := ex.obj(st, a.Obj), ex.obj(st, b.Obj)
 	bad := ts.BAnd(ts.Ult(w, a.Len), ts.BNot(ts.Eq(ts.Select(ao.arr, ts.Add(a.Off, w)), ts.Select(bo.arr, ts.Add(b.Off, w)))))
+	ex.hardNext = ao.arr.depth+bo.arr.depth > 0
 	ex.check(st, bad, "assert", label+" (content)")
+	ex.hardNext = false
 }
 
 func (ex *Exec) intrinsic(st *State, fr *Frame, name string, args []Value) Value {
@@ -413,8 +415,8 @@ func (ex *Exec) intrinsic(st *State, fr *Frame, name string, args []Value) Value
 	case "zzReach":
 		label := ex.argStr(st, args[0])
 		if ex.stats.Labels["reach:"+label] == 0 {
-			r := ex.solver.Check(st.pc, nil)
-			ex.solver.EndModel()
+			r := ex.sat(st.pc, nil)
+			ex.endModel()
 			if r != Sat {
 				return unit
 			}
